@@ -86,6 +86,7 @@ func Exec(t *testing.T, p *Plan, replay bool) (res *Result) {
 		simrt.Reset(ch)
 		simnet.Reset()
 		simnet.AcceptFailures = p.AcceptFail
+		simnet.ListenFails = p.ListenFail
 		cwd := p.Att.Cwd
 		if cwd == "" {
 			cwd = "/simcwd"
@@ -139,6 +140,9 @@ func Exec(t *testing.T, p *Plan, replay bool) (res *Result) {
 		res.Faults = w.faults
 		if simnet.AcceptFailed > 0 {
 			res.Faults["net.accept_error_fired"] += simnet.AcceptFailed
+		}
+		if simnet.ListenFailed > 0 {
+			res.Faults["net.listen_error_fired"] += simnet.ListenFailed
 		}
 		w.rare["c03.parse_calls"] = w.parseCalls
 		res.Rare = w.rare
